@@ -15,7 +15,7 @@ from ..metrics_table import NAMES, SQRT_FORMS, T, reference
 
 ID = "C08"
 RULE = ("Per case one metric and a triple (x,y,z) from its domain in one input class: independent, identical (y=x), "
-        "parallel (y=c*x), one-dimensional, zero-containing, collinear triple, near-degenerate (y~x). Judged: finite for "
+        "parallel (y=c*x), one-dimensional, zero-containing, collinear triple, near-degenerate (y~x); lengths 1..33 and, for 6% of cases, 150 / 784. Judged: finite for "
         "d(x,y),d(y,x),d(x,x); symmetric |dxy-dyx|<=1e-12*scale (flag s); d>=-1e-10*max(S,1) (flag n); |d(x,x)|<=1e-10*max(S,1) "
         "[sqrt of that for square-root forms] (flag z); d(x,z)<=d(x,y)+d(y,z)+1e-9*max(sum,1) (flag t). "
         "Non-trivial: length>=2 or class dim1; distinct = distinct (metric, triple) hash; cells = metric x axiom x class.")
@@ -41,6 +41,8 @@ def generate(rng, tier, idx):
     kind, dec = T[name][1], T[name][3]
     cls = CLASSES[(idx // len(NAMES)) % len(CLASSES)] if rng.random() < 0.8 else CLASSES[int(rng.integers(0, len(CLASSES)))]
     n = LENGTHS[int(rng.integers(0, len(LENGTHS)))]
+    if rng.random() < 0.06:
+        n = int(rng.choice([150, 784]))       # image-sized vectors: sums / products of many terms (overflow, accumulation)
     if cls == "dim1":
         n = 1
     zeros = cls == "zeros" and (kind == "N" or (dec and kind in ("P", "Q")))
